@@ -74,6 +74,7 @@ def run_conditions(conds, timeout, jobs=None, cost=None):
     import threading
     import queue
     jobs = min(jobs or C.NCPU, max(1, len(conds)))
+    timeout = min(timeout, float(os.environ.get('VF_COND_TIMEOUT_MAX', '480')))      # a run ends at most this long after its budget
     oids = [c.oid for c in conds]
     if len(set(oids)) != len(oids):
         dup = sorted(set(o for o in oids if oids.count(o) > 1))
@@ -292,7 +293,7 @@ def stub_validation(prop, conds, obligations, start=700):
         if c.twin or not getattr(c, 'stub_samples', None):
             continue
         o = by.get(c.oid)
-        if o is None or o.verdict not in (DISCHARGED, INCONCLUSIVE):
+        if o is None or o.verdict not in (DISCHARGED, INCONCLUSIVE) or (o.detail or '').startswith('not explored'):
             continue
         groups.setdefault(c.module, []).append(c)
 
